@@ -135,7 +135,14 @@ def doKaczmarz (l : Line) : Option String := do
     { m := m, ops := fun i => Mat.mulVec (fam As [] i), dAdj := fun i _ => Mat.mulVec (fam Ats [] i),
       rhs := fam rhs [], omega := fam omega 0, proj := proj.map (·.eval), rid := fam rid 0,
       cbInner := cb = "inner" }
-  let s := iter P.step n ⟨x0, fun _ => junk 1, junk x0.length, []⟩
+  -- `orders=0,1;1,0;…` (random=True: the permutations numpy drew), else the fixed order
+  let s0 : KaczmarzS RV RV := ⟨x0, fun _ => junk 1, junk x0.length, []⟩
+  let s ← match l.get? "orders" with
+    | none => some (iter P.step n s0)
+    | some o => do
+        let os ← (o.splitOn ";").mapM parseNatList
+        if os.length ≠ n || os.any (fun p => p.any (· ≥ m)) then none
+        some (P.runOrd os s0)
   some s!"ok log={showLog s.log} x={showVec s.x}"
 
 /-- `proxgrad pf= gg= gamma= lam= x0= n=` -/
